@@ -101,7 +101,7 @@ func (d *db) rz() *rzState { return d.aux.(*rzState) }
 var rzRacing = map[string]bool{"dupjoin": true, "dupcomplete": true, "errcomplete": true, "unknownjob": true, "abort": true, "netfault": true, "clearfaults": true, "sleep": true, "await": true,
 	"gate": true, "nap": true, "gatewait": true, "reportdown": true, "reportready": true, "leave": true, "back": true, "gatesettle": true}
 
-var rzReadOnly = map[string]bool{"widecheck": true, "rebuild": true, "allnodes": true, "checkowners": true, "checkplan": true, "checkplacement": true, "join": true, "remove": true, "snapowners": true}
+var rzReadOnly = map[string]bool{"widecheck": true, "rebuild": true, "widereset": true, "allnodes": true, "checkowners": true, "checkplan": true, "checkplacement": true, "join": true, "remove": true, "snapowners": true}
 
 func rzPreOp(d *db) func(op simrt.Op) {
 	return func(op simrt.Op) {
@@ -690,11 +690,15 @@ func rzExtra(d *db, op simrt.Op) bool {
 			}
 			d.c.Probe("join-orders-compared")
 		}
+	case "widereset": // forget the recorded owner table (membership changed on purpose)
+		st.tableA = nil
 	case "rebuild": // I=[perm seed]: same node ids, fresh directories, another join order
 		old := d.cl
-		ids := make([]string, len(old.nodes))
-		for i, nd := range old.nodes {
-			ids[i] = nd.id
+		var ids []string
+		for _, nd := range old.nodes {
+			if !nd.gone { // nodes removed from the first cluster are not part of the second
+				ids = append(ids, nd.id)
+			}
 		}
 		old.closeAll()
 		perm := append([]int{0}, func() []int {
@@ -871,6 +875,11 @@ func genC20(r *simrt.Rand, tier string) *simrt.Plan {
 		// 768 (index, shard) pairs from every node, then the same ids joined in another order
 		nodes := 1 + r.Intn(8)
 		ops := []simrt.Op{{K: "widecheck"}}
+		if nodes > 2 && r.Bool(0.5) {
+			// a node leaves first: the owners computed by the nodes that saw it leave must equal
+			// those of a cluster that never knew it
+			ops = append(ops, simrt.Op{K: "remove", I: []int64{int64(r.Intn(8))}}, simrt.Op{K: "await", I: []int64{60}}, simrt.Op{K: "widereset"}, simrt.Op{K: "widecheck"})
+		}
 		if nodes > 2 {
 			ops = append(ops, simrt.Op{K: "rebuild", I: []int64{int64(r.Intn(1 << 30))}}, simrt.Op{K: "widecheck"})
 		}
